@@ -98,6 +98,11 @@ pub struct RunCfg {
     /// `available_parallelism()`
     #[serde(default)]
     pub cpus: Option<u32>,
+    /// after a cancelled request the history goes straight on (a user who
+    /// drops a query and opens a session at once) instead of letting the
+    /// detached futures finish first
+    #[serde(default)]
+    pub no_quiesce: bool,
 }
 
 #[derive(Clone, Debug, PartialEq, Eq, Hash, Serialize, Deserialize)]
